@@ -12,7 +12,7 @@ SPEC = dict(
          "with the real open path (compaction-log recovery, WAL replay) and its full dump compared with the last-write-wins reference "
          "as of the last acknowledged op (in-flight op: absent or complete); evaluations = recoveries, distinct_nontrivial = distinct "
          "crash images holding data or taken inside an op; "
-         "a second binary built with the WAL file size shrunk to 16 bytes runs long overwrite histories (22+ writes) so that log-file "
+         "a second binary built with the WAL file size shrunk to 16 bytes (and the log's buffer-size constants to 8 / 32 bytes) runs long overwrite histories (22+ writes) so that log-file "
          "roll-over and multi-digit file sequences are reached, crash images split over the workers",
     assumptions=["process-crash model: the OS survives, un-synced blocks are not lost",
                  "mutations that bypass lib/fileops are not crash points themselves (images are still frozen copies of the real tree)",
@@ -27,6 +27,11 @@ def _rotation_overlay(cid, tier):
     src = os.path.join(checklib.REPO, "engine/wal.go")
     txt = open(src).read()
     new, n = re.subn(r"DefaultFileSize\s*=\s*10 \* 1024 \* 1024", "DefaultFileSize   = 16", txt)
+    # the other size constants of the log (compression buffer size, largest buffer handed back to the pool) are shrunk
+    # as well where they are spelled as expected, so that whatever they gate is crossed by the small records of the
+    # universe; on the unchanged tree they only decide about buffer pooling
+    new, _ = re.subn(r"WalCompBufSize\s*=\s*256 \* 1024", "WalCompBufSize    = 8", new)
+    new, _ = re.subn(r"WalCompMaxBufSize\s*=\s*2 \* 1024 \* 1024", "WalCompMaxBufSize = 32", new)
     if n != 1:
         # the constant is spelled differently in the tree under test: the roll-over stage cannot be built; this is
         # not a verdict about the property (the first stage still decides), the evidence says exhaustive:false
